@@ -35,6 +35,9 @@ pub enum RgPlan {
         to_file: bool,
         #[serde(default)]
         stale: usize,
+        /// `fs-in-place`: -o names the very file given to --convert
+        #[serde(default)]
+        in_place: bool,
     },
 }
 
@@ -113,6 +116,7 @@ pub fn gen_plan(rng: &mut Prng) -> RgPlan {
             dot: rng.chance(1, 6),
             to_file: rng.chance(1, 3),
             stale: if rng.chance(1, 3) { rng.range(1, 120) } else { 0 },
+            in_place: rng.chance(1, 8),
         }
     }
 }
@@ -254,6 +258,7 @@ fn args_of(plan: &RgPlan, dir: &PathBuf, force_dot: Option<bool>) -> (Vec<String
             colors,
             dot,
             to_file,
+            in_place,
             ..
         } => {
             let input = dir.join("in.csv");
@@ -279,7 +284,11 @@ fn args_of(plan: &RgPlan, dir: &PathBuf, force_dot: Option<bool>) -> (Vec<String
             if force_dot.unwrap_or(*dot) {
                 a.push("--dot".into());
             }
-            if *to_file {
+            if *in_place {
+                a.push("-o".into());
+                a.push(input.to_string_lossy().to_string());
+                outfile = Some(input.clone());
+            } else if *to_file {
                 let p = dir.join("out.txt");
                 a.push("-o".into());
                 a.push(p.to_string_lossy().to_string());
@@ -288,7 +297,10 @@ fn args_of(plan: &RgPlan, dir: &PathBuf, force_dot: Option<bool>) -> (Vec<String
         }
     }
     let stale = match plan {
-        RgPlan::Gen { stale, .. } | RgPlan::Convert { stale, .. } => *stale,
+        RgPlan::Convert { in_place: true, .. } => 0,
+        _ => match plan {
+            RgPlan::Gen { stale, .. } | RgPlan::Convert { stale, .. } => *stale,
+        },
     };
     if let (Some(p), true) = (&outfile, stale > 0) {
         let old: String = (0..stale).map(|i| format!("v9{i},v8{i}\n")).collect();
@@ -674,6 +686,7 @@ pub fn minimise(plan: &RgPlan, v: &Violation) -> (RgPlan, Violation) {
                 dot,
                 to_file,
                 stale,
+                in_place,
             } => {
                 for i in 0..edges.len() {
                     let mut e2 = edges.clone();
@@ -685,6 +698,7 @@ pub fn minimise(plan: &RgPlan, v: &Violation) -> (RgPlan, Violation) {
                         dot: *dot,
                         to_file: *to_file,
                         stale: *stale,
+                        in_place: *in_place,
                     });
                 }
                 if *to_file || *dot {
@@ -695,6 +709,7 @@ pub fn minimise(plan: &RgPlan, v: &Violation) -> (RgPlan, Violation) {
                         dot: false,
                         to_file: false,
                         stale: 0,
+                        in_place: *in_place,
                     });
                 }
                 if let Some(k) = colors {
@@ -706,6 +721,7 @@ pub fn minimise(plan: &RgPlan, v: &Violation) -> (RgPlan, Violation) {
                             dot: *dot,
                             to_file: *to_file,
                             stale: *stale,
+                            in_place: *in_place,
                         });
                     }
                 }
